@@ -120,17 +120,71 @@ def tmle_cells(chk, df, covs, ytype, cf_raw, dsid, rec, rng=None):
                           'TMLE %s = standardization with only the %s model saturated' % (k, side), case)
 
 
+def incomplete_cells(chk, rng, ytype):
+    """TMLE on data with missing outcomes (related to treatment and covariates) AND some rows lacking a covariate: the
+    rows without a covariate are dropped (documented), the rows without an outcome stay in the target population.
+    Outcome model saturated (fitted on the observed outcomes), treatment / missingness models any sub-model -- or
+    treatment and missingness models saturated, outcome model any sub-model: the plug-ins are the observed cell means
+    standardized to ALL rows with complete covariates (tmle_dr_outcome / tmle_dr_treatment)."""
+    import pandas as pd
+    from zepid.causal.doublyrobust import TMLE
+    df, covs = gen.cat_dataset(rng, outcome=ytype, missing='mar', ncov=int(rng.integers(1, 3)), max_strata=6,
+                               index=str(rng.choice(['default', 'shifted', 'shuffled'])))
+    if not df['Y'].isna().any():
+        chk.discard('no outcome went missing in the draw')
+        return
+    # rows lacking one covariate: copies of existing rows (outcome observed or not), appended with fresh labels
+    k = int(rng.integers(2, 7))
+    extra = df.iloc[rng.integers(0, len(df), size=k)].copy()
+    extra[covs[0]] = np.nan
+    extra.index = [(max(df.index) + 1 + j) for j in range(k)]
+    full = pd.concat([df, extra])
+    full = full.iloc[rng.permutation(len(full))]
+    cols = covs + ['A', 'Y']
+    cb = 0.0
+    cf = gen.closed_form(df, covs)             # df = the rows with complete covariates
+    want = c01.measures(cf[('population', 1)], cf[('population', 0)], ytype)
+    rec = gen.describe(df, covs, outcome=ytype, missing='mar', rows_lacking_a_covariate=k)
+    rec['frame'] = gen.frame_record(full)
+    dsid = hash(full.to_csv())
+    for side, subs in (('outcome', gen.submodels(covs)), ('treatment', gen.submodels(covs, 'A'))):
+        for sub in subs[:3]:
+            use_mm = side == 'treatment' or rng.uniform() < 0.5
+            case = {'estimator': 'TMLE', 'saturated': side, 'other_model': sub, 'outcome': ytype, 'continuous_bound': cb,
+                    'missing_outcomes': int(df['Y'].isna().sum()), 'rows_lacking_a_covariate': k,
+                    'missing_model': ('saturated' if side == 'treatment' else 'sub-model') if use_mm else None,
+                    'want': want, 'data': rec}
+            chk.case(case, (dsid, 'TMLE/incomplete', side, sub))
+            chk.count('TMLE/incomplete/%s-saturated/%s' % (side, ytype))
+            try:
+                t = TMLE(full[cols], exposure='A', outcome='Y', continuous_bound=cb)
+                t.exposure_model(gen.sat_cov(covs) if side == 'treatment' else sub, print_results=False)
+                if use_mm:
+                    t.missing_model(gen.sat_out(covs) if side == 'treatment' else (sub + ' + A' if 'A' not in sub else sub),
+                                    print_results=False)
+                t.outcome_model(gen.sat_out(covs) if side == 'outcome' else sub, print_results=False)
+                t.fit()
+            except Exception as ex:      # noqa: BLE001
+                chk.d(False, 'TMLE runs on data with missing outcomes and rows lacking a covariate',
+                      dict(case, impl_error=repr(ex)))
+                continue
+            got = ({'RD': float(t.risk_difference), 'RR': float(t.risk_ratio), 'OR': float(t.odds_ratio)}
+                   if ytype == 'binary' else {'ATE': float(t.average_treatment_effect)})
+            case['impl'] = got
+            for kk, v in got.items():
+                chk.d(close(v, want[kk], rtol=1e-6, atol=1e-6),
+                      'TMLE %s with missing outcomes and rows lacking a covariate = observed cell means standardized to all '
+                      'rows with complete covariates (only the %s side saturated)' % (kk, side), case)
+
+
 def aipsw_cells(chk, drv, rng, tier):
     from zepid.causal.generalize import AIPSW
     nds = 5 if tier == 'quick' else 40
     for _ in range(nds):
         seed = int(rng.integers(0, 2 ** 31))
-        df, covs = c16.combined(np.random.default_rng(seed), junk=False)
         index_kind = str(rng.choice(['default', 'shifted', 'shuffled']))
-        if index_kind == 'shifted':
-            df.index = np.arange(len(df)) + 500
-        elif index_kind == 'shuffled':
-            df.index = np.random.default_rng(seed + 1).permutation(len(df))
+        _, dfn, dfa, covs = c16.make_frames(seed, index_kind)
+        df = dfn
         cf = c16.closed_form(df, covs)
         rec = gen.describe(df, covs, data_seed=seed, index=index_kind)
         dsid = hash(df.to_csv())
@@ -142,6 +196,11 @@ def aipsw_cells(chk, drv, rng, tier):
                 for g in (True, False):
                     for stab in (True, False):
                         for treat in ((True, False) if side == 'outcome' else (True,)):
+                            # outcome model saturated: exposure and outcome may also be recorded outside the sample (a trial
+                            # stacked on a cohort); the outcome model is fitted on the sample, so the standardization of
+                            # the SAMPLE's cell means is still what is returned, whatever the weights
+                            use_ay = side == 'outcome' and rng.uniform() < 0.5
+                            df = dfa if use_ay else dfn
                             e = AIPSW(df[cols], exposure='A', outcome='Y', selection='S', generalize=g)
                             e.sampling_model(sc if side == 'weights' else sub, stabilized=stab, print_results=False)
                             if treat:
@@ -160,6 +219,7 @@ def aipsw_cells(chk, drv, rng, tier):
                             want_rr = float(cf[(g, 1)] / cf[(g, 0)])
                             case = {'estimator': 'AIPSW', 'saturated': side, 'other_model': sub, 'generalize': g,
                                     'stabilized': stab, 'treatment_model': treat,
+                                    'exposure_and_outcome_recorded_outside_sample': bool(use_ay),
                                     'impl': [float(e.risk_difference), float(e.risk_ratio)], 'want': [want_rd, want_rr],
                                     'data': rec}
                             chk.case(case, (dsid, 'AIPSW', side, sub, g, stab, treat),
@@ -171,7 +231,8 @@ def aipsw_cells(chk, drv, rng, tier):
                             chk.d(close(e.risk_difference, want_rd, **TOL) and close(e.risk_ratio, want_rr, **TOL),
                                   'AIPSW RD/RR = standardization with only the %s side saturated' % side, case,
                                   signature=sig)
-                            c16.model_k(chk, drv, e, df, covs, g, stab, 'AIPSW', case)
+                            if not use_ay:
+                                c16.model_k(chk, drv, e, dfn, covs, g, stab, 'AIPSW', case)
 
 
 def run(chk, drv, rng, tier):
@@ -193,16 +254,72 @@ def run(chk, drv, rng, tier):
                 aiptw_cells(chk, drv, df, covs, ytype, wcol, cf, dsid, rec, rng)
                 if wcol is None and ytype != 'poisson':
                     tmle_cells(chk, df, covs, ytype, cf, dsid, rec, rng)
+    for _ in range(3 if tier == 'quick' else 20):
+        for ytype in ('binary', 'normal'):
+            incomplete_cells(chk, rng, ytype)
     aipsw_cells(chk, drv, rng, tier)
 
 
 def replay(rec):
+    """re-run the stored failing cases on the implementation (data sets are stored exactly under case.data.frame, or
+    regenerated from case.data.data_seed for the AIPSW cells)"""
     import common
-    import json
+    from zepid.causal.doublyrobust import AIPTW, TMLE
+    from zepid.causal.generalize import AIPSW
+    n = 0
     for f in rec.get('failures', []):
         c = f['case']
-        print(f['what'])
-        print(json.dumps({k: v for k, v in c.items() if k != 'data'}, default=str))
-        print(' data:', {k: v for k, v in c.get('data', {}).items() if k != 'frame'})
-    print('(re-run: data sets are stored exactly under case.data.frame / regenerated from case.data.data_seed)')
-    return 1 if rec.get('failures') else 0
+        d = c.get('data', {})
+        print('replaying:', f['what'], {k: v for k, v in c.items() if k != 'data'})
+        try:
+            with common.quiet():
+                if c.get('estimator') == 'AIPSW':
+                    _, dfn, dfa, covs = c16.make_frames(d['data_seed'], d.get('index', 'default'))
+                    df = dfa if c.get('exposure_and_outcome_recorded_outside_sample') else dfn
+                    sc, side, sub = gen.sat_cov(covs), c['saturated'], c['other_model']
+                    e = AIPSW(df[covs + ['A', 'Y', 'S']], exposure='A', outcome='Y', selection='S', generalize=c['generalize'])
+                    e.sampling_model(sc if side == 'weights' else sub, stabilized=c['stabilized'], print_results=False)
+                    if c['treatment_model']:
+                        e.treatment_model(sc if side == 'weights' else sub, stabilized=c['stabilized'], print_results=False)
+                    e.outcome_model(gen.sat_out(covs) if side == 'outcome' else sub, print_results=False)
+                    e.fit()
+                    got = {'RD': float(e.risk_difference), 'RR': float(e.risk_ratio)}
+                    want = dict(zip(('RD', 'RR'), c['want']))
+                elif 'frame' in d and 'columns' in d['frame']:
+                    df = gen.frame_from_record(d['frame'])
+                    covs = sorted(x for x in df.columns if x.startswith('L'))
+                    side, sub, ytype = c['saturated'], c['other_model'], c['outcome']
+                    want = c['want']
+                    if c['estimator'] == 'TMLE':
+                        t = TMLE(df[covs + ['A', 'Y']], exposure='A', outcome='Y', continuous_bound=c.get('continuous_bound', 0.0005))
+                        t.exposure_model(gen.sat_cov(covs) if side == 'treatment' else sub, bound=c.get('bound', False),
+                                         print_results=False)
+                        if c.get('missing_model'):
+                            t.missing_model(gen.sat_out(covs) if side == 'treatment' else (sub + ' + A' if 'A' not in sub else sub),
+                                            print_results=False)
+                        t.outcome_model(gen.sat_out(covs) if side == 'outcome' else sub, print_results=False)
+                        t.fit()
+                        got = ({'RD': float(t.risk_difference), 'RR': float(t.risk_ratio), 'OR': float(t.odds_ratio)}
+                               if ytype == 'binary' else {'ATE': float(t.average_treatment_effect)})
+                    else:
+                        wcol = c.get('weights')
+                        a = AIPTW(df[covs + ['A', 'Y'] + ([wcol] if wcol else [])], exposure='A', outcome='Y', weights=wcol)
+                        a.exposure_model(gen.sat_cov(covs) if side == 'treatment' else sub, bound=c.get('bound', False),
+                                         print_results=False)
+                        a.outcome_model(gen.sat_out(covs) if side == 'outcome' else sub,
+                                        continuous_distribution='poisson' if ytype == 'poisson' else 'gaussian', print_results=False)
+                        a.fit()
+                        got = ({'RD': float(a.risk_difference), 'RR': float(a.risk_ratio)} if ytype == 'binary'
+                               else {'ATE': float(a.average_treatment_effect)})
+                else:
+                    print('  (data set too large to be stored; rerun with the recorded seed)')
+                    continue
+        except Exception as ex:      # noqa: BLE001
+            print('  raised:', repr(ex))
+            n += 1
+            continue
+        bad = [k for k in got if not close(got[k], want[k], rtol=1e-6, atol=1e-6)]
+        print('  impl', got, '| closed form', {k: want[k] for k in got}, '| differs in' if bad else '| agrees', bad or '')
+        n += bool(bad)
+    print('failures reproduced:', n)
+    return 1 if n else 0
